@@ -29,6 +29,8 @@ static std::map<const Value*, std::string> gname;  // globals & functions
 static std::set<std::string> used_names;
 static const DataLayout* DL;
 static int n_fail = 0;
+static std::set<const Function*> libc_renamed;
+static std::map<std::string, std::string> new_types; // tag -> C element type of typed operator new sites
 static std::map<std::string, std::string> mem_types; // tag -> C element type used by mem* helpers
 
 static void fail(const std::string& msg) { errs() << "ll2c: UNSUPPORTED: " << msg << "\n"; ++n_fail; }
@@ -469,7 +471,9 @@ static void emit_function(raw_ostream& o, Function& F) {
         if (callee && (callee->getName() == "_Znwm" || callee->getName() == "_Znam")) {
           Type* et = new_elem_type(cb); int nb = et ? 1 : 0;
           if (et && nb == 1) {
-            o << "  " << lhs << "VERIF_NEW(" << ctype(et) << ", " << cexpr(cb->getArgOperand(0), &cx) << ");\n";
+            std::string T = ctype(et); if (et->isPointerTy()) T = "verif_ptr_t";
+            std::string tag = sanitize(T); new_types[tag] = T;
+            o << "  " << lhs << "verif_new_" << tag << "(" << cexpr(cb->getArgOperand(0), &cx) << ");\n";
             if (auto* inv = dyn_cast<InvokeInst>(cb)) emit_goto(o, &bb, inv->getNormalDest(), cx, "  ");
             continue;
           }
@@ -602,7 +606,9 @@ int main(int argc, char** argv) {
   // names
   for (Function& F : *M) {
     std::string nm = F.getName().str();
+    static const std::set<std::string> libc = {"strlen", "memcmp", "memchr", "strcmp", "strncmp", "bcmp", "abort", "free", "malloc", "memcpy", "memmove", "memset"};
     if (F.isIntrinsic()) nm = "verif_" + sanitize(nm);
+    else if (F.isDeclaration() && libc.count(nm)) { nm = "verif_libc_" + nm; libc_renamed.insert(&F); }
     else nm = sanitize(nm);
     used_names.insert(nm); gname[&F] = nm;
   }
@@ -643,7 +649,7 @@ int main(int argc, char** argv) {
   for (Function& F : *M) {
     if (is_noise_intrinsic(&F)) continue;
     if (F.getName() == "__gxx_personality_v0") { o << "int __gxx_personality_v0();\n"; continue; }
-    if (F.isIntrinsic()) continue;
+    if (F.isIntrinsic() || libc_renamed.count(&F)) continue;
     FunctionType* ft = F.getFunctionType();
     std::string ps;
     for (unsigned i = 0; i < ft->getNumParams(); ++i) { if (i) ps += ", "; ps += cdecl(ft->getParamType(i), ""); }
@@ -671,6 +677,7 @@ int main(int argc, char** argv) {
   o << "\n";
   std::string fbuf; { raw_string_ostream fo(fbuf); for (Function& F : *M) if (!F.isDeclaration()) emit_function(fo, F); }
   for (auto& kv : mem_types) o << "VERIF_DEF_MEM(" << kv.second << ", " << kv.first << ")\n";
+  for (auto& kv : new_types) o << "VERIF_DEF_NEW(" << kv.second << ", " << kv.first << ")\n";
   o << "\n" << fbuf;
   // global ctors
   o << "void verif_global_ctors(void) {\n";
